@@ -43,7 +43,21 @@ def op_configs(tier):
     add("hold-out fraction outside [0,1]", op="badfraction", fam="A", R=3)
     add("combination filter D", op="combofilter", fam="D", R=7)
     add("combination filter A", op="combofilter", fam="A", R=7)
+    if not q:
+        from .retro_common import family
+        for k in range(N_GENERATED):
+            fam = "G%d" % k
+            R = len(family(fam))
+            for op, kw in (("perm", dict(force=None)), ("segr", dict(pmax=3)), ("mergemin", dict(pmax=5)), ("topbottom", {}),
+                           ("fixed", dict(pmax=3)), ("optimal", {}), ("nper", {}), ("ensemble", {}), ("holdout", {}),
+                           ("rholdout", {}), ("cover", {}), ("combofilter", {})):
+                # operations whose generator draws are permutations of all rows are factorial in the row count
+                Rop = min(R, 6) if op in ("perm", "rholdout", "holdout", "cover", "ensemble", "segr") else R
+                add("%s %s (generated structure, %d rows)" % (op, fam, Rop), op=op, fam=fam, R=Rop, **kw)
     return out
+
+
+N_GENERATED = 16
 
 
 def _plates_of(t, only_unobserved=True):
